@@ -129,17 +129,11 @@ def run_task(task):
 
     def body():
         e = S.engine()
-        e2.install_shadows(ns)
-        J, dom, free = e2.sym_numerics(I)
-        e.notes['J'] = J
-        text = spec.inst_to_text(J, tok=lambda v: e.token(v), sep=sep, colon=colon, trailer=task['trailer'])
-        e.notes['text'] = text
-        path = e2.scratch_file()          # same path for every instance of this process
-        with open(path, 'w') as f:
-            f.write(text)
-        argv = ['-f', path, '-na', str(I.na)] + (['-twopl'] if task['twopl'] else [])
-        s = ns.solver.Solver(argv)
-        return s.model
+        flags = {'twopl'} if task['twopl'] else set()
+        run = e2.run_e2(I, flags, [], solve=False, text_kw={'sep': sep, 'colon': colon, 'trailer': task['trailer']})
+        e.notes['J'] = run.inst
+        e.notes['text'] = run.text
+        return run.solver.model
 
     E = S.Engine(max_paths=256, timeout=300)
     paths = E.explore(body)
